@@ -45,7 +45,7 @@ CFG = dict(
     rule="static: every access site of every field of the tracked structs (one case per field: rows = read/write, function, "
          "locks held on straight-line Lock/defer Unlock/Unlock paths, *Locked helpers inherit, class plain/atomic/init/confined/"
          "pub:<tag>/after:<tag>; no wildcard for after-sites); "
-         "dynamic: 8 workloads (mux, mux-stop, chan, proxy, demux, http, opts, ws = client and server over the WebSocket transport) x GOMAXPROCS {1,4,16} x 2 repetitions (thorough: 12 repetitions each) under -race with seeded yields; "
+         "dynamic: 9 workloads (mux, mux-stop, chan, proxy, demux, http, opts, ws = client and server over the WebSocket transport, byref = client with a stats handler -> by-reference channel transport -> Proxy / Demux -> server with a stats handler) x GOMAXPROCS {1,4,16} x 2 repetitions (thorough: 12 repetitions each) under -race with seeded yields; "
          "non-trivial = distinct description hash",
     assumptions=["tools/locksets and tools/locksets/justify.txt are trusted (the justifications are hand-written arguments)",
                  "a lock is named struct.field by the tool; the theorem's hypothesis (conforms) needs every access to a field of object o that names lock m to "
